@@ -77,9 +77,9 @@ func newPathEval(c *core.Ctx, al *algebra, fn *ssa.Function, path core.CFGPath, 
 func (e *pathEval) bindParams() {
 	for i, p := range e.fn.Params {
 		if isBigPtr(p.Type()) {
-			e.objs[p] = &bobj{val: e.al.atom("param", p.Name()), param: i}
+			e.objs[p] = &bobj{val: e.al.atom("param", core.ParamName(p)), param: i}
 		} else if isNumeric(p.Type()) {
-			e.nums[p] = e.al.atom("param", p.Name())
+			e.nums[p] = e.al.atom("param", core.ParamName(p))
 		}
 	}
 }
